@@ -1,11 +1,13 @@
 import MocModel.Drv.C02
 import MocModel.Drv.Mw
+import MocModel.Drv.Prom
 open Moc.Drv
 
 def handlers : List (String × Handler) := [
   ("C02", C02.handler),
   ("C17", MwD.handler),
-  ("C18", MwD.handler)
+  ("C18", MwD.handler),
+  ("C19", PromD.handler)
 ]
 
 def main (args : List String) : IO UInt32 := do
